@@ -99,8 +99,12 @@ class Builder:
         if not any(vals):
             vals.insert(1, self.pick_amp())
         tt = [0]
+        unit = r.random() < 0.25 and all(abs(vals[i] - vals[i - 1]) <= self.step for i in range(1, len(vals)))
         for i in range(1, len(vals)):
-            tt.append(tt[-1] + self.ramp(vals[i - 1], vals[i]) + (r.randint(0, 10) if vals[i - 1] == vals[i] else 0))
+            if unit:
+                tt.append(tt[-1] + 1)       # corners on consecutive raster edges: times = arange(n) * raster
+            else:
+                tt.append(tt[-1] + self.ramp(vals[i - 1], vals[i]) + (r.randint(0, 10) if vals[i - 1] == vals[i] else 0))
         return {'k': 'ext', 'delay': delay, 'tt': tt, 'vals': vals}
 
     def gen_arb(self, first, last_v):
@@ -196,6 +200,15 @@ class Builder:
                 f = -1 if kind == 'flip' else r.choice([-1, 2, 0.5, -2])
                 ops.append({'op': 'flip', 'axis': ax} if kind == 'flip' else {'op': 'mod', 'axis': ax, 'factor': f})
                 blocks = scale_desc(blocks, ax, f)
+                # ... and then add events EQUAL to earlier, pre-modification ones again (the same unmodified block):
+                # they must be stored as given, not bound to the modified library entries
+                cand = [b for b in self.desc if ax in b['g'] and
+                        all(self.g_first(g) == 0 and self.g_last(g) == 0 for g in b['g'].values())]
+                last_zero = all(self.g_last(g) == 0 for g in blocks[-1]['g'].values()) if blocks else True
+                if cand and last_zero and r.random() < 0.8:
+                    nb = copy.deepcopy(r.choice(cand))
+                    ops.append({'op': 'add', 'block': nb})
+                    blocks.append(nb)
             elif kind == 'dedup':
                 ops.append({'op': 'dedup'})
             elif kind == 'longer' and ends0:
